@@ -232,12 +232,24 @@ def B_trace(name, fam, n, maxops=10, mode='value', legacy=False, plain=False, ca
         args = [rec, '-fam', fam, '-n', str(n), '-seed', str(ctx.seed), '-out', trace, '-index', idx, '-maxops', str(maxops)]
         if plain:
             args.append('-plain')
+        if mode == 'bytes':
+            args.append('-bytes')
         if case:
             args += ['-case', case]
         p = subprocess.run(args, env=ctx.env, capture_output=True, text=True)
         if p.returncode != 0:
             raise Broken('stage %s: the recorder failed: %s' % (name, (p.stderr or p.stdout)[-1500:]))
         index = json.load(open(idx))
+        if os.environ.get('VERIF_CORRUPT_TRACE') == name:
+            # binding demonstration (development aid, never set by a registered command): damage one recorded field
+            # and see the trace rejected.  bytes mode: the first output byte; otherwise the first "ok" flag.
+            lines = open(trace).read().split('\n')
+            for i, l in enumerate(lines):
+                if mode == 'bytes' and '"bytes":[1' in l:
+                    lines[i] = l.replace('"bytes":[1', '"bytes":[88,1', 1); break
+                if mode != 'bytes' and '"ok":true' in l:
+                    lines[i] = l.replace('"ok":true', '"ok":false', 1); break
+            open(trace, 'w').write('\n'.join(lines))
         states, reported = validate_trace(ctx, name, trace, index, mode, legacy)
         ctx.exhaustive = False
         ctx.cov['states'] += states
@@ -901,3 +913,6 @@ _addB('C16', [B_trace('ts', 'scan', 600)], [B_trace('ts', 'scan', 12000)],
 _addB('C17', [B_trace('ts', 'scan', 600)], [B_trace('ts', 'scan', 12000)],
       'the same texts: the recorded Compact, Indent, HTMLEscape and compact-with-escaping outputs must equal the specification transducers byte for '
       'byte, decode-then-encode must reproduce the parsed value, UnmarshalWithKeys must report the keys in document order')
+_addB('C15', [B_trace('tb', 'patch', 400, mode='bytes')], [B_trace('tb', 'patch', 8000, mode='bytes')],
+      _TB % ('patch traces WITH the raw output bytes of every successful operation', 'the bytes are read by the specification\'s own RFC 8259 grammar '
+             '(JsonText!ParseText) and must denote the reference document; with EscapeHTML on they must be free of raw < > & U+2028 U+2029'))
